@@ -489,7 +489,7 @@ pub fn gen_plan(seed: u64, prof: &Profile) -> Plan {
     }
     if retries_on && cfg.closure_retry.is_none() && r.chance(1, 5) {
         // only scenarios whose inherited tags satisfy the expression get the configured retries
-        let expr = (*r.pick(&["@serial", "not @serial", "not @allow.skipped", "@serial or @allow.skipped"])).to_owned();
+        let expr = (*r.pick(&["@serial", "not @serial", "not @allow.skipped", "@serial or @allow.skipped", "@serial and @allow.skipped", "@allow.skipped and @serial", "@allow.skipped or not @serial"])).to_owned();
         if r.chance(1, 2) {
             cfg.cli_retry_filter = Some(expr);
         } else {
@@ -645,10 +645,19 @@ pub fn gen_plan(seed: u64, prof: &Profile) -> Plan {
     }
 
     let tracing_targets_only = prof.tracing && r.chance(1, 8);
+    let tags_filter = (prof.pipeline_pm > 0 && r.chance(1, 8))
+        .then(|| (*r.pick(&["not @serial", "not @allow.skipped", "@serial or not @allow.skipped", "@allow.skipped and not @serial", "@allow.skipped or @serial"])).to_owned());
     let mut cfg = cfg;
     if tracing_targets_only {
         cfg.cli_concurrency = Some(1);
     }
+    // (only expressions whose reading does not depend on operator precedence: the gherkin crate's grammar
+    // gives `not`, `and` and `or` one level, so `not @a and @b` is `not (@a and @b)` there)
+    // (`filter_run` consults the `--tags` expression INSTEAD of the filter closure)
+    if tags_filter.is_some() {
+        filtered_rules.clear();
+    }
+    cfg.tags_filter = tags_filter;
 
     Plan {
         seed,
